@@ -199,7 +199,9 @@ def check(spec, tier, seed, replay=None):
         try:
             C.log("[%s] node differential (%s)" % (pid, tier))
             summ, rundir = run_differential(tier, seed)
-            proj = set(spec["projection"]) | {"panic"}
+            # (A) decides only on this property's projection; for protocol-level properties whose
+            # theorems are about P the deciding tie is the acceptor (B) and (A) is diagnostic
+            proj = (set(spec["projection"]) | {"panic"}) if spec["projection"] else set()
             mine = [d for d in summ["dis"] if proj & set(d["keys"])]
             if mine:
                 d0 = mine[0]
